@@ -229,6 +229,14 @@ def handle : Handler
       let ok := (List.range kn).all fun j => (List.range kn).all fun j' =>
         ke j j' == (e (index.getD j kn) (index.getD j' kn) || e (index.getD j' kn) (index.getD j kn))
       some (verdict (ok && index.length == kn))) "bad-args"
+  | "c05.spec_close", [a, b, tol] => some <| Option.getD (do
+      -- two dense matrices of the same shape agree entry by entry within `tol` (probs_ of a rescaled graph)
+      let a ← ratListList? a
+      let b ← ratListList? b
+      let tol ← rat? tol
+      let ok := a.length == b.length && (a.zip b).all fun (x, y) =>
+        x.length == y.length && (x.zip y).all fun (u, v) => decide (absR (u - v) ≤ tol)
+      some (verdict ok)) "bad-args"
   | "c05.spec_same", [a, b] => some <| Option.getD (do
       let a ← intList? a
       let b ← intList? b
